@@ -24,7 +24,7 @@ type c14 struct{}
 func (c14) ID() string    { return "C14" }
 func (c14) Level() string { return "model_checking" }
 func (c14) Rule() string {
-	return "explicit-state BFS: initial state = a project in which reflection made every field of every model type non-zero (fresh maps, slices, pointers; 4 services with a dependency chain, profiles, disabled services, env and label files on disk) plus the loaded 'rich' corpus project; transitions = every derivation operation x argument domain applied by calling the real method; states deduplicated by canonical hash; in every transition: receiver deep-equal to its reflective snapshot, result shares no map / slice backing array / pointer with the receiver (opaque extension payloads excepted), every field outside the operation's footprint equal. distinct = distinct states reached"
+	return "explicit-state BFS: initial state = a project in which reflection made every field of every model type non-zero (fresh maps, slices, pointers; 4 services with a dependency chain, profiles, disabled services, env and label files on disk) plus the loaded 'rich' corpus project; transitions = every derivation operation x argument domain applied by calling the real method; states deduplicated by canonical hash; in every transition: receiver deep-equal to its reflective snapshot, result shares no map / slice backing array / pointer with the receiver (opaque extension payloads excepted), every field outside the operation's footprint equal; every service of the result is a service of the receiver and equal to it outside the operation's per-service footprint (depends_on may only lose entries). distinct = distinct states reached"
 }
 func (c14) Assumptions() []string {
 	return []string{
